@@ -67,20 +67,27 @@ CHECKS["C10"] = dict(
              "functions in-process and with the real daemon process under SIGHUP",
    design="DESIGN.md §2 C10")
 CHECKS["C11"] = dict(
-   text="Theorems about the Lean model of qmail-newu / cdb / qmail-lspawn nughde_get+spawn / qmail-getpw (Nq/Users.lean), for ALL tables, passwd databases, "
-        "addresses and single-call fault plans: qmail-local is executed only right after successful setgroups[g], setgid g, setuid u, getuid=u≠0 with exactly the "
-        "record's ids and argv; uid 0 (also via non-numeric/wrapping fields) is never executed; nughde_get's probe order equals the declarative assignment "
-        "(first exact entry, else longest wildcard prefix, first duplicate, case-insensitive); the cdb hash tables built by cdbmake (256 buckets, linear probing) "
-        "return the first pair for every key (structured level); qmail-getpw's loop equals the password-file rules; every lookup/identity error code is reported Z. "
-        "Tied to the current source by the translator (qlx.h, report() switch, conf-break, GETPW_USERLEN) and by running the real qmail-newu (cdb compared byte for byte), "
-        "cdb_seek (also on corrupted/truncated files), qmail-getpw and docmd()+spawn() child with setgroups/setgid/setuid/getuid/execv recorded, on exhaustive template "
-        "tables and seeded random tables/passwd databases/faults; the oracle is the independent spec evaluated on the implementation's trace.",
-   note=NOTE_COMMON + "Modelled, not verified: POSIX meaning of setgroups/setgid/setuid/getuid; scripted getpwnam/stat; byte-level cdb (de)serialisation and qmail-newu's "
-        "line parser are tied by correspondence only (no theorem); allocation failures and qmail-pw2u are not modelled.",
-   technique="Lean 4 proof (trace predicates over the child's call list; probe-order = longest-prefix spec; linear-probing insertion invariant; loop = declarative rules) "
-             "+ byte-exact differential correspondence with fault injection",
+   text="31 theorems about the Lean model of qmail-newu / cdb / qmail-lspawn nughde_get+spawn+report / qmail-getpw (Nq/Users.lean), for ALL users/assign files, "
+        "tables, passwd databases, addresses and single-call fault plans: qmail-local is executed only right after successful setgroups[g], setgid g, setuid u, "
+        "getuid=u≠0 with exactly the record's ids and argv; uid 0 (also via non-numeric/wrapping fields) is never executed; qmail-newu's line compiler equals the "
+        "declarative colon-field reading of users/assign for every file (C11_newu_parse); the BYTE-level constant database round trip — cdb_seek+cdb_bread "
+        "(hash, header pointer, slot walk with wrap-around, record header, chunked key comparison, little-endian words) on the bytes cdbmake writes returns the "
+        "first pair's data / absent for every list below the format's 4 GiB limit (C11_cdb_roundtrip); nughde_get's probe order on those bytes equals the "
+        "declarative assignment (first exact entry, else longest wildcard prefix, first duplicate, case-insensitive), end to end from the text of users/assign "
+        "(C11_assign_to_nughde); on ANY file a hit is backed by a real slot/header/key/data inside the file, answers are stable under file extension, and a "
+        "truncated database gives the right record or exit QLX_CDB, never another identity (C11_cdb_hit_sound, C11_cdb_truncated, C11_truncated_defers); "
+        "qmail-getpw's loop equals the password-file rules; every lookup/identity error code is reported as one fixed line Z...\\n. "
+        "Tied to the current source by the translator (qlx.h, report() switch and texts, conf-break, GETPW_USERLEN, hash start) and by running the real qmail-newu "
+        "(cdb compared byte for byte and dumped record by record), cdb_seek (result and file position, also on corrupted/truncated files), qmail-getpw and "
+        "docmd()+spawn() child with setgroups/setgid/setuid/getuid/execv recorded, on exhaustive template tables and seeded random tables/passwd databases/faults; "
+        "the oracle is the independent spec evaluated on the implementation's output.",
+   note=NOTE_COMMON + "Modelled, not verified: POSIX meaning of setgroups/setgid/setuid/getuid; scripted getpwnam/stat; cdb files of 4 GiB and more (the format's limit, "
+        "unchecked by cdbmss.c) are outside the round-trip theorem; pointer bytes above 16 MiB and key mismatches that need a 32-bit hash collision are covered by the "
+        "theorem and the byte-exact model but cannot be exercised by the harness; allocation failures and qmail-pw2u are not modelled.",
+   technique="Lean 4 proof (trace predicates over the child's call list; probe-order = longest-prefix spec; linear-probing insertion invariant; byte-layout 'At' lemmas + "
+             "slot-walk/scan simulation for the cdb (de)serialisation; parser = declarative field splitting; monotonicity of the reader under file extension) "
+             "+ byte-exact differential correspondence with fault injection and file corruption",
    design="DESIGN.md §2 C11")
-
 CHECKS["C13"] = dict(
    text="Theorems over ALL extensions, home-directory contents, control-file texts, messages and envelope bytes about the Lean model Nq.Local of qmail-local.c: "
         "candidate names = documented search order (exact, then every dash-boundary prefix + 'default', longest first; lower-cased, dots to colons), a file is used iff it is the first "
